@@ -89,3 +89,20 @@ func simplifyUnder(pc []*smt.Term, cond *smt.Term) *smt.Term {
 	}
 	return smt.Subst(cond, m)
 }
+
+// SolveHyps decides the satisfiability of a conjunction and returns the
+// model value of want (used by the executor to concretise small integers).
+func SolveHyps(hyps []*smt.Term, want *smt.Term) (*smt.Term, bool, bool) {
+	q := &smt.Query{Name: "feasible", Hyps: hyps, Values: []*smt.Term{want}}
+	r := smt.Solve(q, 20)
+	switch r.Status {
+	case "unsat":
+		return nil, false, true
+	case "sat":
+		if v, ok := r.Model[want.ID]; ok {
+			return v, true, true
+		}
+		return nil, false, false
+	}
+	return nil, false, false
+}
